@@ -30,6 +30,82 @@ example : (addCategory reg0 { args with defaultValue := some (.fin 2000) }).toOp
 example : (addCategory reg0 { args with defaultValue := none }).toOption = none := by decide +kernel
 example : (addCategory reg0 argsMin).toOption.map (·.2) = some catMin := by decide +kernel
 
+/-! produced objects: the hypotheses of `validity_independent_of_provenance` / `produced_checked_by_amount`
+are met by non-trivial production paths, and the produced object is rejected like the direct one -/
+
+/-- what the first `CheckValidity()` on a produced object answers (`none` when it cannot be produced,
+`some none` when its quantity is derived) -/
+def producedCheck (p : Prov) : Option (Option (Sym × Sym × List Val × Option VErr)) :=
+  match build reg1 p with
+  | .error _ => none
+  | .ok (.derived, _) => some none
+  | .ok (.simple c u r, s) =>
+    some (some (c.name, u, elemsOfShape s, answer (checkValidity reg1 (.simple c u r) s.obj).2))
+where elemsOfShape : Shape → List Val
+  | .scalar v => [v]
+  | .fraction v => [v]
+  | .array (.flat _ vs) => vs
+  | .array (.nested _ f _) => f
+
+def depth : Sym := Sym.ofString "depth"
+def thickness : Sym := Sym.ofString "thickness"
+def base : Prov := .direct depth m (.array (.flat .list [.fin 1000, .fin 1500]))
+
+-- Array('depth', [1000, 1500], 'm') * 2 = [2000, 3000] m: rejected (`< 2000`, the smallest amount is checked first)
+example : producedCheck (.opNumber base .mul (.fin 2) false) =
+    some (some (depth, m, [.fin 2000, .fin 3000], some (.validation .lt 2000 (.fin 2000)))) := by decide +kernel
+-- … * 1 stays inside
+example : producedCheck (.opNumber base .mul (.fin 1) true) =
+    some (some (depth, m, [.fin 1000, .fin 1500], none)) := by decide +kernel
+-- 1500 m + 60000 cm (another category of the quantity type) = 2100 m of 'depth': rejected
+example : producedCheck (.opObjects (.direct depth m (.scalar (.fin 1500))) (.direct thickness cm (.scalar (.fin 60000))) .add) =
+    some (some (depth, m, [.fin 2100], some (.validation .lt 2000 (.fin 2100)))) := by decide +kernel
+-- the mapping and list forms and a pickle round trip of a product
+example : producedCheck (.viaMapping [(depth, km, 1)] (.scalar (.fin 2))) =
+    some (some (depth, km, [.fin 2], some (.validation .lt 2000 (.fin 2000)))) := by decide +kernel
+example : producedCheck (.viaList [(km, 1)] (.many [depth]) (.scalar (.fin 1))) =
+    some (some (depth, km, [.fin 1], none)) := by decide +kernel
+example : producedCheck (.pickle (.opNumber (.validated base [.isValid]) .sub (.fin 1001) false)) =
+    some (some (depth, m, [.fin (-1), .fin 499], some (.validation .ge 0 (.fin (-1))))) := by decide +kernel
+-- exponent 2, two categories, number / object: derived quantities
+example : producedCheck (.viaMapping [(depth, km, 2)] (.scalar (.fin 2))) = some none := by decide +kernel
+example : producedCheck (.opNumber base .div (.fin 2) true) = some none := by decide +kernel
+-- the hypothesis of `provenance_calls_agree`: two different paths, one object
+example : producedCheck (.opNumber (.direct depth m (.scalar (.fin 5))) .mul (.fin 2) false) =
+    producedCheck (.pickle (.viaMapping [(depth, m, 1)] (.scalar (.fin 10)))) := by decide +kernel
+
+/-! `AddCategory` with `None` flags, `GetDefaultValue`, `CheckValueForCategory`, `ScalarMinMaxValidator` -/
+
+/-- `AddCategory("child", from_category="depth", is_min_exclusive=None, is_max_exclusive=None, caption=None)` -/
+def childRaw : AddArgsRaw :=
+  { base := { category := Sym.ofString "child", fromCategory := some depth },
+    minExcl := none, maxExcl := none, caption := none }
+
+-- the exclusive maximum of 'depth' is inherited (and its limits, default unit and default value)
+example : (addCategoryRaw reg1 childRaw).toOption.map (fun r => (r.2.minExcl, r.2.maxExcl, r.2.maxV, r.2.defaultValue)) =
+    some (false, true, some 2000, .fin 10) := by decide +kernel
+-- a given flag wins over the source
+example : (addCategoryRaw reg1 { childRaw with maxExcl := some false }).toOption.map (fun r => r.2.maxExcl) =
+    some false := by decide +kernel
+example : (getDefaultValue reg1 depth).toOption = some (.fin 10) := by decide +kernel
+example : (getDefaultValue reg1 (Sym.ofString "missing")).toOption = none := by decide +kernel
+-- CheckValueForCategory('depth', 2000.0) (default unit) and ('depth', 2.0, 'km'): the exclusive maximum
+example : answer (checkValueForCategory reg1 depth (.fin 2000) none) = some (.validation .lt 2000 (.fin 2000)) := by
+  decide +kernel
+example : answer (checkValueForCategory reg1 depth (.fin 2) (some km)) = some (.validation .lt 2000 (.fin 2000)) := by
+  decide +kernel
+example : answer (checkValueForCategory reg1 depth (.fin 1) (some km)) = none := by decide +kernel
+
+/-- the validator's complaint about `Scalar('depth', v, u)` -/
+def complaint (u : Sym) (v : Val) : Option (Option VErr) :=
+  match mkQuant reg1 depth u with
+  | .ok q => (validatorPredicate reg1 q v).toOption
+  | .error _ => none
+
+example : complaint km (.fin 2) = some (some (.validation .lt 2000 (.fin 2000))) := by decide +kernel
+example : complaint cm (.fin (-1)) = some (some (.validation .ge 0 (.fin (R (-1) 100)))) := by decide +kernel
+example : complaint km (.fin 1) = some none := by decide +kernel
+
 end Example
 
 example : Example.checkMinOnly Example.m .posInf = some none := by decide +kernel
